@@ -99,6 +99,13 @@ func runC12(r *Run) {
 		if !ok {
 			return
 		}
+		// Deliberately NOT demanded: that an invalid predicate fails when the row holds no cell.
+		// Nothing flows into the filter then, and the statement's "invalid predicate" clause is
+		// read with the same tolerance as C05 (a node evaluation never reaches may be validated
+		// eagerly or not at all; the unchanged emulator accepts a bad regex on an absent row).
+		if pred != nil && c12RootInvalid(pred) && obs == nil {
+			r.Probe("c12.invalid_predicate_on_absent_row")
+		}
 		r.Mix(filterShape(pred) + fmt.Sprint(resp.Code == codes.OK, resp.Matched))
 		if pred != nil && resp.ok() {
 			if readFailed {
@@ -145,4 +152,21 @@ func runC12(r *Run) {
 		check(btOp{Kind: "ReadAll", Table: tbl})
 	}
 	r.Sample = map[string]interface{}{"engine": engine, "steps": nSteps}
+}
+
+// c12RootInvalid: the root node of the filter is itself invalid (a leaf with a bad argument, or a
+// chain / interleave with fewer than two members).
+func c12RootInvalid(f *btpb.RowFilter) bool {
+	switch x := f.Filter.(type) {
+	case *btpb.RowFilter_Chain_:
+		return len(x.Chain.Filters) < 2
+	case *btpb.RowFilter_Interleave_:
+		return len(x.Interleave.Filters) < 2
+	case *btpb.RowFilter_Condition_:
+		return false
+	}
+	// a leaf: invalid for certain (not one of the arguments the statement leaves open)
+	e := &fEval{}
+	e.eval(f, "k", []OCell{{Fam: "f1", Qual: "q", Ts: 1000, Val: "v"}})
+	return e.required
 }
